@@ -303,6 +303,9 @@ impl Property for C02 {
     fn enumeration_exhaustive(_tier: Tier) -> Option<String> {
         Some("2 steps x 2 keys: all 5^4 = 625 link-directory populations over {absent, valid, signed by the other key, tampered, garbage}".into())
     }
+    fn concurrent() -> bool {
+        true
+    }
     fn check(spec: &Spec, env: &mut Env) -> Outcome {
         let mut o = Outcome::new();
         let (w, alias) = apply_faults(spec);
